@@ -42,6 +42,9 @@ type BlockSpec struct {
 	Proposer string   `json:"proposer"`
 	Txs      []string `json:"txs"`    // hex of the raw tx bytes
 	Labels   []string `json:"labels"` // one per tx: message kinds, for the histogram only
+	// one per tx: the transaction fails the STATELESS ValidateBasic of one of its messages (decided by the pilot
+	// from the message alone, before execution) — baseapp rejects it before the ante handler runs
+	Stateless []bool `json:"stateless,omitempty"`
 	// node-local requests a "twin" execution serves after this block is committed: transactions to SIMULATE
 	// (gas estimation; never part of a block).  Consensus must not depend on them.
 	Sims []string `json:"sims,omitempty"`
@@ -212,6 +215,10 @@ const (
 
 var modeNames = map[int]string{ModePlain: "plain", ModeTwin: "twin(sim+query+checktx)", ModeRestart: "restarted"}
 
+// IsRestartPoint: a `restarted` execution of a history of n blocks replaces the application object by a new
+// one on the same database just before block index i (0-based) — at one third and two thirds of the history.
+func IsRestartPoint(n, i int) bool { return i > 0 && (i == n/3 || i == 2*n/3) }
+
 // Execute re-executes a recorded history in a fresh application instance.
 func Execute(spec *Spec) Exec { return ExecuteMode(spec, ModePlain) }
 
@@ -223,7 +230,7 @@ func ExecuteMode(spec *Spec, mode int) (ex Exec) {
 	}()
 	c := NewChain(spec)
 	for i, b := range spec.Blocks {
-		if mode == ModeRestart && i > 0 && (i == len(spec.Blocks)/3 || i == 2*len(spec.Blocks)/3) {
+		if mode == ModeRestart && IsRestartPoint(len(spec.Blocks), i) {
 			c.Restart()
 		}
 		prop, _ := hex.DecodeString(b.Proposer)
